@@ -41,9 +41,54 @@ class UnparserModel:
         for name, v in self.mi.consts.items():
             if isinstance(v, dict) and len(v) >= 10 and all(isinstance(k, type) and issubclass(k, ast.AST) for k in v) and all(isinstance(x, FuncInfo) for x in v.values()):
                 cands.append((v, name))
+        # the same table reachable under two names (class attribute aliasing a module-level dict)
+        uniq = []
+        for v, nm in cands:
+            if not any(v == u for u, _n in uniq):
+                uniq.append((v, nm))
+        cands = uniq
+        if not cands:
+            reg = self._registry_by_decorator()
+            if reg:
+                cands.append(reg)
         if len(cands) != 1:
             raise AnalysisError(f"the unparser's generator table (node kind -> generator) was not found uniquely ({len(cands)} candidates)")
         return {k.__name__: f for k, f in cands[0][0].items()}, cands[0][1]
+
+    def _registry_by_decorator(self):
+        """Generator functions registered with `@register(<ast class>)`, where `register(k)` returns
+        a decorator that stores its argument in a module-level dict under k."""
+        table = {}
+        regs = set()
+        for fi in self.mi.functions.values():
+            for d in fi.node.decorator_list:
+                if not (isinstance(d, ast.Call) and isinstance(d.func, ast.Name) and len(d.args) == 1 and not d.keywords):
+                    continue
+                deco = self.mi.functions.get(d.func.id)
+                if deco is None:
+                    continue
+                dparams = [a.arg for a in deco.node.args.args]
+                stores = [
+                    n for n in ast.walk(deco.node)
+                    if isinstance(n, ast.Assign) and len(n.targets) == 1 and isinstance(n.targets[0], ast.Subscript)
+                    and isinstance(n.targets[0].value, ast.Name) and isinstance(n.targets[0].slice, ast.Name)
+                    and dparams and n.targets[0].slice.id == dparams[0] and isinstance(n.value, ast.Name)
+                ]
+                inner = [n for n in ast.walk(deco.node) if isinstance(n, ast.FunctionDef) and n is not deco.node]
+                if len(stores) != 1 or len(inner) != 1 or stores[0].value.id not in [a.arg for a in inner[0].args.args]:
+                    continue
+                try:
+                    k = self.prog.eval_const(self.mi, d.args[0])
+                except Exception:
+                    continue
+                if isinstance(k, type) and issubclass(k, ast.AST):
+                    if k in table:
+                        raise AnalysisError(f"two generators registered for ast.{k.__name__}")
+                    table[k] = fi
+                    regs.add(stores[0].targets[0].value.id)
+        if len(table) >= 10 and len(regs) == 1:
+            return table, next(iter(regs))
+        return None
 
     def _driver_comparison(self):
         """The comparison that decides parenthesisation: <node precedence> OP <slot precedence>."""
